@@ -225,7 +225,11 @@ func parseValues(s string, m Model) {
 			if !ok || len(pair) != 2 {
 				continue
 			}
-			m[render(pair[0])] = render(pair[1])
+			k := render(pair[0])
+			if len(k) >= 2 && k[0] == '|' && k[len(k)-1] == '|' {
+				k = k[1 : len(k)-1]
+			}
+			m[k] = render(pair[1])
 		}
 	}
 }
